@@ -50,5 +50,9 @@ PROP = dict(
         H(NS, "c16", "c16_wire_v4_deny_allow", "whole handle(): client outside the allow list gets a DENY kiss", tier="thorough"),
         H(NS, "c16", "c16_wire_v3_time", "whole handle(): NTPv3 time answer", tier="thorough"),
         H(NS, "c16", "c16_wire_v3_deny", "whole handle(): NTPv3 DENY kiss", tier="thorough"),
-    ],
+        # the list lookup the access policy relies on (shared with C31): real IpFilter::new tries (built natively by build.rs from
+    # the current source), `is_in <=> prefix oracle` for every address
+    H("np_misc_h", "c31", "c31_v4_plain", "IpFilter membership = prefix oracle (IPv4 lists, plain addresses); the policy harnesses above use raw /4 tries", timeout=600),
+    H("np_misc_h", "c31", "c31_v4_mapped", "same for IPv4-mapped IPv6 client addresses", timeout=600),
+],
 )
